@@ -76,3 +76,42 @@ macro_rules! c16_new_proof {
 c16_new_proof!(c16_support_new_m2, 0.6931471805599453);
 c16_new_proof!(c16_support_new_m3, 0.4054651081081644);
 c16_new_proof!(c16_support_new_m5, 0.22314355131420976);
+
+// =====================================================================================
+// C16 — real constructor with a SYMBOLIC first constant: lambda = 1, exp_m1(1) replaced by an arbitrary v in [1, 1e6]
+// (so c1 = v / 1 is symbolic and whatever else `new` derives from exp_m1 - an inverse, say - is derived by the real
+// code), exp -> arbitrary value in (0, 1], ln -> arbitrary non-NaN value.  Rounding defects of the first acceptance
+// test that only occur for some lambda are reachable here; a counterexample is a candidate that the native search with
+// the real libm over a grid of lambda must confirm.
+// =====================================================================================
+pub(crate) fn exp_m1_anyc1(x: f64) -> f64 {
+    if x == 1.0 {
+        any_f64_in(1.0, 1.0e6)
+    } else {
+        kani::any()
+    }
+}
+pub(crate) fn exp_unit(_x: f64) -> f64 {
+    let r: f64 = kani::any();
+    kani::assume(r > 0.0 && r <= 1.0);
+    r
+}
+pub(crate) fn ln_any(_x: f64) -> f64 {
+    let r: f64 = kani::any();
+    kani::assume(!r.is_nan());
+    r
+}
+
+#[kani::proof]
+#[kani::stub(f64::exp_m1, exp_m1_anyc1)]
+#[kani::stub(f64::exp, exp_unit)]
+#[kani::stub(f64::ln, ln_any)]
+#[kani::unwind(2)]
+fn c16_support_new_anyc1() {
+    let e = ExpRestricted01::new(1.0);
+    let mut rng = Xo::seed_from_u64(kani::any());
+    let x = e.sample(&mut rng);
+    assert!(x >= 0.0 && x < 1.0);
+    kani::cover!(rng.consumed() >= 3, "witness: slow path");
+    kani::cover!(rng.consumed() == 1, "witness: fast path");
+}
